@@ -794,6 +794,23 @@ class Interp:
                 return ('adt', 'core::ops::control_flow::ControlFlow', 1, [Cell(('adt', 'core::result::Result', 1, [Cell(v[3][0].v)]))])
             raise Unmodelled('Try::branch on %r' % (v[1] if v[0] == 'adt' else v[0],))
         if name == 'core::ops::try_trait::FromResidual::from_residual':
+            # `?` converts the error with From: a private error enum mapped to the public one by a workspace `impl From`
+            r_ = self.deref_all(A[0])
+            body_, t_ = getattr(self, 'cur', (None, None))
+            if r_ is not None and r_[0] == 'adt' and r_[1] == 'core::result::Result' and r_[2] == 1 and r_[3] and body_ is not None and not t_['dest']['p']:
+                ev = self.deref_all(r_[3][0].v)
+                dty = body_.local_ty(t_['dest']['l'])
+                if ev is not None and ev[0] == 'adt' and ty_head(dty) == 'core::result::Result':
+                    parts_ = ty_args_of_tuple('(' + dty[dty.index('<') + 1:-1] + ')')
+                    tgt_ = ty_head(parts_[-1]) if parts_ else ''
+                    if tgt_ and tgt_ != ev[1]:
+                        for im in self.facts.impls:
+                            if im.get('trait_def') and strip_generics(im['trait_def']) == 'core::convert::From' and ty_head(im['self']) == tgt_ and ('<' + ev[1]) in im['trait'].replace(' ', ''):
+                                for item in im['items']:
+                                    fb = self.facts.body(strip_generics(item))
+                                    if fb is not None and last_seg(item) == 'from':
+                                        conv = self.run_body(fb, [ev], depth + 1)
+                                        return ('adt', 'core::result::Result', 1, [Cell(conv)])
             return A[0]
         if name == 'core::ops::try_trait::Try::from_output':
             return mk_option(A[0])
@@ -1275,6 +1292,9 @@ class Interp:
                 best = xs[0]
                 for x in xs[1:]:
                     a, b = self.deref_all(best), self.deref_all(x)
+                    if a[0] == 'ctr' and b[0] == 'ctr' and seg == 'max':
+                        best = ('ctr', ('max', a[1], b[1]))       # counters are symbolic: the greater of two is a term
+                        continue
                     r = self.order.cmp(a[1], b[1])
                     if (seg == 'max' and r in '<=') or (seg == 'min' and r == '>'):
                         best = x
